@@ -11,6 +11,7 @@ pub mod thrift2;
 pub mod thrift3;
 pub mod thrift_rt;
 pub mod val;
+pub mod watchdog;
 
 use std::io::{BufRead, Write};
 
@@ -58,6 +59,7 @@ pub fn run_main(modules: &'static [(ExecFn, GenFn)]) {
             let oracle_path = args.iter().position(|a| a == "--oracle").map(|i| args[i + 1].clone());
             std::panic::set_hook(Box::new(|i| { let l = i.location().map(|l| { let f = l.file(); let f = f.rsplit('/').take(2).collect::<Vec<_>>().into_iter().rev().collect::<Vec<_>>().join("/"); format!("{}:{}", f, l.line()) }).unwrap_or_default(); if std::env::var_os("VERIF_PANIC_BT").is_some() { eprintln!("{}", std::backtrace::Backtrace::force_capture()); }
                 if std::env::var_os("VERIF_PANIC_LOG").is_some() { eprintln!("panic: {} @ {}", i.payload().downcast_ref::<&str>().map(|s| s.to_string()).or_else(|| i.payload().downcast_ref::<String>().cloned()).unwrap_or_default(), l); } PANIC_LOC.with(|c| *c.borrow_mut() = l); }));
+            watchdog::start();
             let child = std::thread::Builder::new().stack_size(512 << 20).spawn(move || {
                 let stdin = std::io::stdin();
                 let so = std::io::stdout();
@@ -68,6 +70,7 @@ pub fn run_main(modules: &'static [(ExecFn, GenFn)]) {
                     let line = line.trim();
                     if line.is_empty() || line.starts_with('#') { let _ = writeln!(w, ""); continue; }
                     let mut o = Oracle { fails: vec![] };
+                    watchdog::tick(i as u64 + 1);
                     let ans = match std::panic::catch_unwind(std::panic::AssertUnwindSafe(|| exec_line(modules, line, &mut o))) {
                         Ok(a) => a,
                         Err(p) => {
@@ -77,8 +80,10 @@ pub fn run_main(modules: &'static [(ExecFn, GenFn)]) {
                             "panic".into()
                         }
                     };
+                    watchdog::done();
                     let _ = writeln!(w, "{}", ans);
-                    if let Some(f) = ofile.as_mut() { for x in &o.fails { let _ = writeln!(f, "{}\t{}", i + 1, x); } }
+                    let _ = w.flush();
+                    if let Some(f) = ofile.as_mut() { for x in &o.fails { let _ = writeln!(f, "{}\t{}", i + 1, x); } let _ = f.flush(); }
                 }
                 let _ = w.flush();
                 if let Some(mut f) = ofile { let _ = f.flush(); }
